@@ -101,8 +101,11 @@ def neg_const_index(r: Rat) -> bool:
 class Evaluator:
     def __init__(self, prog: Program, inline: Callable[[FuncInfo], bool] = None, max_depth: int = 8,
                  param_hook: Callable[[FuncInfo, str], Optional[Val]] = None,
-                 decide: Callable[[Val], Optional[bool]] = None, opaque_kind: Dict[str, str] = None):
+                 decide: Callable[[Val], Optional[bool]] = None, opaque_kind: Dict[str, str] = None, elementwise: bool = False):
         self.prog = prog
+        # element-wise mode (used by rules that compare vectorised code with an element-wise specification): numpy.where / clip / minimum / maximum /
+        # searchsorted / boolean-mask reads and stores get element-wise closed forms instead of opaque terms
+        self.elementwise = elementwise
         self.inline = inline or (lambda f: True)
         self.max_depth = max_depth
         self.events: List[Event] = []
@@ -495,6 +498,8 @@ class Evaluator:
                 pre = self._whole_store(base, idx, v)
             if pre is None and not aug:
                 pre = self._segment_store(base, idx, v)
+            if pre is None and not aug and self.elementwise:
+                pre = self._masked_store(base, idx, v)
             if pre is not None:
                 newv = pre
             self.rebind(t.value, newv, st)
@@ -520,6 +525,27 @@ class Evaluator:
         from .dtypes import dtype_of
         out.dt = dtype_of(base)
         return out
+
+    def _masked_store(self, base, idx, v) -> Optional[Val]:
+        """`a[M] = c` (scalar c) or `a[M] = w` where w was computed from reads through the same mask: element i becomes c / w[i] where M[i] holds"""
+        if not (isinstance(idx, Term) and idx.head == 'mask' and idx.args and getattr(idx, 'mask', None) is None):
+            return None
+        nb = base if isinstance(base, Num) else (self.as_num(base, True) if isinstance(base, Term) and base.kind in ('ndarray', 'list') else None)
+        if nb is None or nb.length is None or getattr(nb, 'mask', None) is not None:
+            return None
+        vn = v if isinstance(v, Num) else self.as_num(v)
+        if vn is None:
+            return None
+        if vn.length is not None:
+            if getattr(vn, 'mask', None) is None or not veq(vn.mask, idx.args[0]):
+                return None
+        elif getattr(vn, 'mask', None) is not None:
+            return None
+        out = gamma(idx.args[0], Num(vn.r, nb.length, nb.kind), nb)
+        if isinstance(out, Num):
+            out.dt = getattr(nb, 'dt', None)
+            return out
+        return None
 
     def _segment_store(self, base, idx, v) -> Optional[Val]:
         """`buf[lo:hi] = v` on a buffer known as a concatenation of segments, where lo is the start of a still unfilled segment and the stored piece
@@ -657,6 +683,29 @@ class Evaluator:
         self.merge(st, cond, a, b)
         return True
 
+    @staticmethod
+    def _store_over(va: Val, vb: Val) -> bool:
+        """`va` is `vb` after one or more in-place stores (whose effect on the elements is not tracked): joining the two, the buffer counts as stored into"""
+        def term_of(v):
+            if isinstance(v, Term):
+                return v
+            if isinstance(v, Num) and v.length is not None:
+                ats = list(v.r.atoms())
+                if len(ats) == 1 and sym.ATOMS.head(ats[0]) == 'el' and v.r == Rat.atom(ats[0]):
+                    ref, ix = sym.ATOMS.args(ats[0])
+                    if isinstance(ref, Ref) and isinstance(ref.term, Term) and isinstance(ix, Rat) and ix == sym.idx():
+                        return ref.term
+            return None
+        t = term_of(va)
+        for _ in range(8):
+            if not (isinstance(t, Term) and t.head in ('stored', 'mutated') and t.args):
+                return False
+            inner = t.args[0]
+            if veq(inner, vb):
+                return True
+            t = term_of(inner)
+        return False
+
     def merge(self, st: State, cond: Val, a: State, b: State):
         env = {}
         for k in set(a.env) | set(b.env):
@@ -664,6 +713,10 @@ class Evaluator:
             if va is None or vb is None:
                 env[k] = gamma(cond, va if va is not None else Term('unbound', (Const(k),)),
                                vb if vb is not None else Term('unbound', (Const(k),)))
+            elif self._store_over(va, vb):
+                env[k] = va
+            elif self._store_over(vb, va):
+                env[k] = vb
             else:
                 env[k] = gamma(cond, va, vb)
         heap = {}
@@ -674,6 +727,10 @@ class Evaluator:
                 va, vb = fa.get(f), fb.get(f)
                 if va is None or vb is None:
                     heap[oid][f] = va if va is not None else vb
+                elif self._store_over(va, vb):
+                    heap[oid][f] = va
+                elif self._store_over(vb, va):
+                    heap[oid][f] = vb
                 else:
                     heap[oid][f] = gamma(cond, va, vb)
         st.env, st.heap = env, heap
@@ -1453,7 +1510,7 @@ class Evaluator:
             return v
         if isinstance(e.op, ast.Invert):
             if isinstance(v, Term) and v.head == 'mask' and v.args:
-                return Term('mask', (p_not(v.args[0]),), kind='ndarray')        # element-wise negation of a boolean array
+                return carry_mask(self, Term('mask', (p_not(v.args[0]),), kind='ndarray'), v)        # element-wise negation of a boolean array
             if isinstance(v, (P, Const)) and (not isinstance(v, Const) or isinstance(v.v, bool)):
                 return p_not(v)
             return Term('invert', (v,), kind=getattr(v, 'kind', 'unknown'))
@@ -1496,6 +1553,9 @@ class Evaluator:
             return Term('strop', (a, b), kind='str')
         if isinstance(op, ast.Div) and isinstance(a, Term) and a.head.startswith('lib:importlib.resources.files'):
             return Term('pathjoin', (a, b), kind='path')
+        if isinstance(op, (ast.BitAnd, ast.BitOr)) and all(isinstance(x_, Term) and x_.head == 'mask' and x_.args for x_ in (a, b)):
+            out = Term('mask', (P('and' if isinstance(op, ast.BitAnd) else 'or', a.args[0], b.args[0]),), kind='ndarray')
+            return carry_mask(self, out, a, b, st=st, node=node)
         na, nb = self.as_num(a), self.as_num(b)
         if na is None or nb is None:
             return Term('binop:' + type(op).__name__, (a, b))
@@ -1553,7 +1613,7 @@ class Evaluator:
                 out.dt = ta
             elif ta is not None and tb is not None and ta == INT:
                 out.dt = tb
-        return out
+        return carry_mask(self, out, na, nb, st=st, node=node)
 
     def eval_BoolOp(self, e, st):
         vals = []
@@ -1693,7 +1753,7 @@ class Evaluator:
             return P('cmp:' + type(op).__name__, a, b)
         if length is not None:
             # element-wise comparison of arrays yields a boolean array
-            return Term('mask', (p,), kind='ndarray')
+            return carry_mask(self, Term('mask', (p,), kind='ndarray'), na, nb, st=st, node=node)
         # a <= b is not(b < a): normalise to strict form with negation so that guards and
         # their complements are recognised
         if p.op == '<=':
@@ -1794,9 +1854,20 @@ class Evaluator:
                 return Term('index', (nb, idx), kind='ndarray')
             if isinstance(idx, Term) and idx.head == 'lib:numpy.arange':
                 idx = term_as_num(idx, True, 'ndarray')
-            if isinstance(idx, Num) and idx.length is not None and not any(sym.ATOMS.head(a_) == 'gamma' for a_ in sym.all_atoms(idx.r)):
+            if self.elementwise and isinstance(idx, Term) and idx.head == 'mask' and idx.args and getattr(nb, 'mask', None) is None \
+                    and getattr(idx, 'mask', None) is None:
+                # a[M] with a boolean array M: the selected elements, kept aligned with their original positions (a masked view)
+                out = Num(nb.r, sym.A('Count', Ref('$m', idx)), 'ndarray')
+                out.dt = getattr(nb, 'dt', None)
+                out.mask = idx.args[0]
+                return out
+            if isinstance(idx, Num) and idx.length is not None and (self.elementwise or not any(sym.ATOMS.head(a_) == 'gamma' for a_ in sym.all_atoms(idx.r))):
                 # a[I] with an index array I: element i is a[I[i]]
-                return Num(sym.subst(nb.r, {sym.idx_atom(): idx.r}), idx.length, 'ndarray')
+                out = Num(sym.subst(nb.r, {sym.idx_atom(): idx.r}), idx.length, 'ndarray')
+                out.dt = getattr(nb, 'dt', None)
+                if self.elementwise:
+                    self.emit('gather', st, node, base=nb, index=idx, mask=getattr(idx, 'mask', None))
+                return carry_mask(self, out, idx, st=st, node=node)
             if isinstance(idx, Term) and idx.head.startswith(('lib:', 'method:', 'call:')):
                 self.emit('subscript', st, node, base=nb, index=idx)
             # boolean mask / fancy index: fresh array
@@ -2549,7 +2620,131 @@ def h_ravel(ev, pos, kw, st, node):
     return None
 
 
+def carry_mask(ev, out, *ins, st=None, node=None):
+    """values computed from masked views (reads through one boolean mask) stay aligned with the original positions under that mask"""
+    masks = [getattr(x, 'mask', None) for x in ins if isinstance(x, (Num, Term)) and getattr(x, 'mask', None) is not None]
+    if not masks:
+        return out
+    arrays = [x for x in ins if (isinstance(x, Num) and x.length is not None) or (isinstance(x, Term) and x.head == 'mask')]
+    if any(getattr(x, 'mask', None) is None for x in arrays) or any(not veq(m_, masks[0]) for m_ in masks[1:]):
+        if st is not None:
+            ev.issue(st, node, 'operation mixing arrays read through different boolean masks')
+        return out
+    out.mask = masks[0]
+    if isinstance(out, Num) and out.length is not None:
+        out.length = next(x.length for x in arrays if isinstance(x, Num)) if any(isinstance(x, Num) for x in arrays) else out.length
+    return out
+
+
+def _ew(fn):
+    def h(ev, pos, kw, st, node):
+        if not getattr(ev, 'elementwise', False):
+            return None
+        return fn(ev, pos, kw, st, node)
+    return h
+
+
+def _broadcast(ev, vals):
+    """numeric operands brought to one extent: (list of Num, length) or None"""
+    ns = []
+    for v in vals:
+        n_ = v if isinstance(v, Num) else ev.as_num(v, isinstance(v, Term) and v.kind in ('ndarray', 'list'))
+        if n_ is None:
+            return None
+        ns.append(n_)
+    lens = [n_.length for n_ in ns if n_.length is not None]
+    if any(not (l_ == lens[0]) for l_ in lens[1:]):
+        return None
+    length = lens[0] if lens else None
+    return [Num(n_.r, length, 'ndarray' if length is not None else n_.kind) for n_ in ns], length
+
+
+@_ew
+def h_where_ew(ev, pos, kw, st, node):
+    if len(pos) != 3 or kw:
+        return None
+    c, a, b = pos
+    if not (isinstance(c, Term) and c.head == 'mask' and c.args):
+        return None
+    bc = _broadcast(ev, [a, b])
+    if bc is None:
+        return None
+    (na, nb), length = bc
+    if length is None:
+        ops = [x for x in walk_vals(c.args[0]) if isinstance(x, Num) and x.length is not None]
+        if not ops:
+            return None
+        length = ops[0].length
+        na, nb = Num(na.r, length, 'ndarray'), Num(nb.r, length, 'ndarray')
+    out = gamma(c.args[0], na, nb)
+    if not isinstance(out, Num):
+        return None
+    from .dtypes import dtype_of, value_tag
+    ta = dtype_of(a) if isinstance(a, Num) and a.length is not None else (value_tag(a) if isinstance(a, Num) else None)
+    tb = dtype_of(b) if isinstance(b, Num) and b.length is not None else (value_tag(b) if isinstance(b, Num) else None)
+    if ta is not None and ta == tb:
+        out.dt = ta
+    return carry_mask(ev, out, c, a, b, st=st, node=node)
+
+
+def _ew_minmax(which):
+    @_ew
+    def h(ev, pos, kw, st, node):
+        if len(pos) != 2 or kw:
+            return None
+        bc = _broadcast(ev, pos)
+        if bc is None:
+            return None
+        (na, nb), length = bc
+        from .values import minmax_atom
+        out = Num(minmax_atom(which, [na.r, nb.r]), length, 'ndarray' if length is not None else 'scalar')
+        return carry_mask(ev, out, *pos, st=st, node=node)
+    return h
+
+
+@_ew
+def h_clip_ew(ev, pos, kw, st, node):
+    a, lo, hi = _arg(pos, kw, 0, 'a'), _arg(pos, kw, 1, 'a_min'), _arg(pos, kw, 2, 'a_max')
+    if lo is None:
+        lo = kw.get('min')
+    if hi is None:
+        hi = kw.get('max')
+    if a is None or lo is None or hi is None or isinstance(lo, Const) or isinstance(hi, Const) or (set(kw) - {'a', 'a_min', 'a_max', 'min', 'max'}):
+        return None
+    bc = _broadcast(ev, [a, lo, hi])
+    if bc is None:
+        return None
+    (na, nlo, nhi), length = bc
+    from .values import minmax_atom
+    out = Num(minmax_atom('min', [minmax_atom('max', [na.r, nlo.r]), nhi.r]), length, 'ndarray' if length is not None else 'scalar')
+    out.dt = getattr(a, 'dt', None)
+    return carry_mask(ev, out, a, st=st, node=node)
+
+
+@_ew
+def h_searchsorted_ew(ev, pos, kw, st, node):
+    """searchsorted(X, v, side) on a sorted array X: the number of elements <= v (side='right') or < v (side='left'), element-wise in v"""
+    X, v = _arg(pos, kw, 0, 'a'), _arg(pos, kw, 1, 'v')
+    side = _arg(pos, kw, 2, 'side', Const('left'))
+    if X is None or v is None or kw.get('sorter') is not None or not (isinstance(side, Const) and side.v in ('left', 'right')):
+        return None
+    if not (isinstance(X, Num) and X.length is not None):
+        return None
+    ats = list(X.r.atoms())
+    if not (len(ats) == 1 and sym.ATOMS.head(ats[0]) == 'el' and X.r == Rat.atom(ats[0]) and sym.ATOMS.args(ats[0])[1] == sym.idx()):
+        return None
+    ref = sym.ATOMS.args(ats[0])[0]
+    vn = v if isinstance(v, Num) else ev.as_num(v, isinstance(v, Term) and v.kind in ('ndarray', 'list'))
+    if vn is None:
+        return None
+    out = Num(sym.A('cle' if side.v == 'right' else 'clt', ref, vn.r), vn.length, 'ndarray' if vn.length is not None else 'scalar')
+    out.dt = ('int',)
+    return carry_mask(ev, out, vn, st=st, node=node)
+
+
 LIB_HANDLERS = {
+    'numpy.clip': h_clip_ew, 'numpy.minimum': _ew_minmax('min'), 'numpy.maximum': _ew_minmax('max'),
+    'numpy.searchsorted': h_searchsorted_ew,
     'numpy.linspace': h_linspace, 'numpy.ravel': h_ravel, 'numpy.full': h_full, 'numpy.pad': h_pad, 'numpy.ptp': h_ptp, 'numpy.fromiter': h_fromiter,
     'functools.partial': h_partial, 'importlib.import_module': h_import_module,
     **{'operator.' + n_: h_operator(n_) for n_ in ('add', 'sub', 'mul', 'truediv', 'pow', 'floordiv', 'mod', 'lt', 'le', 'gt', 'ge', 'eq', 'ne')},
@@ -2558,7 +2753,7 @@ LIB_HANDLERS = {
     'numpy.copy': h_asarray, 'numpy.append': h_append, 'numpy.concatenate': h_concatenate, 'numpy.insert': h_insert, 'numpy.hstack': h_concatenate,
     'numpy.add': h_binary('add'), 'numpy.subtract': h_binary('subtract'), 'numpy.multiply': h_binary('multiply'),
     'numpy.divide': h_binary('divide'), 'numpy.true_divide': h_binary('true_divide'), 'numpy.square': h_square, 'numpy.negative': h_negative,
-    'numpy.shape': h_shape, 'numpy.size': h_size, 'numpy.where': h_nonzero_tuple, 'numpy.nonzero': h_nonzero_tuple, 'numpy.flatnonzero': h_flatnonzero,
+    'numpy.shape': h_shape, 'numpy.size': h_size, 'numpy.where': lambda ev, pos, kw, st, node: (h_where_ew(ev, pos, kw, st, node) if len(pos) == 3 else h_nonzero_tuple(ev, pos, kw, st, node)), 'numpy.nonzero': h_nonzero_tuple, 'numpy.flatnonzero': h_flatnonzero,
     'numpy.sum': h_sum, 'numpy.diff': h_diff, 'numpy.abs': h_abs, 'numpy.absolute': h_abs, 'numpy.fabs': h_abs,
     'numpy.mean': _reduce('Mean'), 'numpy.std': h_std, 'numpy.var': h_var, 'numpy.min': _reduce('Min'),
     'numpy.max': _reduce('Max'), 'numpy.amin': _reduce('Min'), 'numpy.amax': _reduce('Max'),
@@ -2808,6 +3003,16 @@ def m_std(ev, recv, pos, kw, st, node):
 def m_astype(ev, recv, pos, kw, st, node):
     if not isinstance(recv, Num):
         return None
+    if getattr(ev, 'elementwise', False):
+        from .dtypes import tag_of_dtype_arg
+        tag = tag_of_dtype_arg(kw.get('dtype', pos[0] if pos else None))
+        if tag == ('int',) and getattr(recv, 'dt', None) != ('int',):
+            r = Num(sym.mk_int(recv.r), recv.length, recv.kind)         # a cast to an integer type truncates
+            r.dt = tag
+            return carry_mask(ev, r, recv)
+        r = Num(recv.r, recv.length, recv.kind)
+        r.dt = tag
+        return carry_mask(ev, r, recv)
     from .dtypes import tag_of_dtype_arg
     r = Num(recv.r, recv.length, recv.kind)
     r.dt = tag_of_dtype_arg(kw.get('dtype', pos[0] if pos else None))
